@@ -85,9 +85,16 @@ make("C10-live-stop-no-redirect-restore", L, ("""            finally:
                 self.console.pop_render_hook()"""))
 make("C10-progress-stop-no-pop-hook", P, ("""                self._disable_redirect_io()
                 self.console.pop_render_hook()
-        if refresh_thread is not None:""", """                self._disable_redirect_io()
-        self.console.pop_render_hook()
-        if refresh_thread is not None:"""))
+            if self.transient:""", """                self._disable_redirect_io()
+            self.console.pop_render_hook()
+            if self.transient:"""))
+make("C11-revert-transient-erase-under-lock", P, ("""            if self.transient:
+                self.console.control(self._live_render.restore_cursor())
+        if refresh_thread is not None:
+            refresh_thread.join()""", """        if refresh_thread is not None:
+            refresh_thread.join()
+        if self.transient:
+            self.console.control(self._live_render.restore_cursor())"""))
 make("C10-live-stop-cursor-not-in-finally", L, ("""                self.console.pop_render_hook()
                 self.console.show_cursor(True)
 
